@@ -139,8 +139,33 @@ def run_packing(cfg, out):
             c.updates_per_step = 2
             run.report.context = {"mtu": mtu}
             maxp = P.MAX_PAYLOAD_SIZE
+            staged = None            # (tick, side, k): second half of a resend+fresh flood
+            normal = dict(w.net.policy)
             for t in range(cfg["ticks"]):
                 mode = r.random()
+                if staged is None and mode >= 0.7 and mode < 0.78:
+                    # resend + fresh: k1 empty BEST_EFFORT messages go out into an outage (nothing is acked); once their
+                    # resend is overdue the application adds k2 fresh empty messages in one tick: the datagram built then is
+                    # offered k1 + k2 > 255 zero-length messages
+                    side0 = r.choice(["client", "server"])
+                    ep0 = c if side0 == "client" else run.sconn(c)
+                    if ep0 is not None and len((c.udp.conn if side0 == "client" else ep0).outgoing_messages) < 50:
+                        w.net.set(c2s=L.Policy(outage=True), s2c=L.Policy(outage=True))
+                        for _ in range(r.choice([120, 200, 250])):
+                            run.app.send(ep0, side0, 0, 1, with_cb=False)
+                        staged = (t + r.randint(7, 10), side0, r.choice([60, 150, 250]))
+                        run.c.inc("resend_plus_fresh_floods")
+                if staged is not None:
+                    if t == staged[0]:
+                        ep0 = c if staged[1] == "client" else run.sconn(c)
+                        if ep0 is not None:
+                            for _ in range(staged[2]):
+                                run.app.send(ep0, staged[1], 0, r.choice([1, 1, -1, 0]), with_cb=False)
+                    if t >= staged[0] + 3:
+                        w.net.set(c2s=normal["c2s"], s2c=normal["s2c"])
+                        staged = None
+                    w.step()
+                    continue
                 for side in ("client", "server"):
                     ep = c if side == "client" else run.sconn(c)
                     if ep is None:
@@ -199,7 +224,7 @@ def finish(tier, seed, results):
     m = merge(results)
     inconclusive = []
     need(m["counters"], ["codec_packets", "codec_form_gcm", "codec_form_crc", "codec_roundtrips_real", "codec_roundtrips_independent",
-                         "mtus_run", "wire_checked", "maximality_checked", "roundtrips_checked", "tiny_floods", "conservation_checked",
+                         "mtus_run", "wire_checked", "maximality_checked", "roundtrips_checked", "tiny_floods", "resend_plus_fresh_floods", "conservation_checked",
                          "packets_built"], inconclusive)
     cov = {
         "evaluations": m["evaluations"],
